@@ -70,7 +70,7 @@ def predicates(out, spectrum, f, dirs, lead, requested_total, detected, n_wsea, 
     swells = out[n_wsea:]
     hs = [_np_hs(np.asarray(s, dtype=np.float64), f, dirs) for s in swells]
     for a in range(len(hs) - 1):
-        if hs[a + 1] > hs[a] * (1 + 1e-12) + 1e-300:
+        if hs[a + 1] > hs[a] * (1 + 2e-6) + 1e-300:  # the library ranks by a single-precision-level Hs: closer than that is a tie
             raise Violation("order", "swell %d has Hs %r < swell %d with Hs %r %s" % (a, hs[a], a + 1, hs[a + 1], where))
     empties = [not np.any(s) for s in swells]
     if any(e and not e2 for e, e2 in zip(empties[:-1], empties[1:])):
@@ -181,7 +181,8 @@ def check_np(case, ctx):
         exp_hs = [ehs[k] for k in order] + [0.0] * max(0, req - len(exp_sw))
         while i < req:
             j = i
-            while j + 1 < len(exp_hs) and abs(exp_hs[j + 1] - exp_hs[i]) <= 1e-12 * max(exp_hs[i], 1e-300):
+            tie_tol = 2e-6 if case["dtype"] == "float32" else 1e-9  # the library's Hs is evaluated in the dtype of the partitions
+            while j + 1 < len(exp_hs) and abs(exp_hs[j + 1] - exp_hs[j]) <= tie_tol * max(exp_hs[i], 1e-300):
                 j += 1
             group = exp_sorted[i:j + 1]
             for g in got_sw[i:min(j + 1, req)]:
